@@ -265,6 +265,8 @@ def run(ctx):
     # ---- histories in which the roots move between deploys (deploy side: deletes come from records)
     from vlib import deploysim as ds
     ds.run_cli_stream(ctx, 10 if quick else 150, 4, props={'C03'}, stream='moved_roots', script=ds.script_moved_roots, setup=ds.setup_moved_roots)
+    # manifests with hostile entries (absolute, '..', backslash spellings, duplicates): deletes come from records
+    ds.run_lib_stream(ctx, 150 if quick else 2500, props={'C03'})
     # ---- corpus first
     for name, case, expect in corpus_cases():
         out = run_case((case, None))
